@@ -28,13 +28,13 @@ type ToolFault string
 
 const (
 	TFNone         ToolFault = ""
-	TFCannotStart  ToolFault = "cannot-start"    // exec fails (ENOENT / EACCES / EAGAIN)
-	TFKilled       ToolFault = "killed"          // terminated by a signal, no output
-	TFKilledOutput ToolFault = "killed-partial"  // terminated by a signal after writing part of its output
-	TFNonzeroEmpty ToolFault = "nonzero-empty"   // exits 1 without output
-	TFGarbage      ToolFault = "garbage"         // shellcheck only: prints something that is not JSON
-	TFEpipe        ToolFault = "epipe"           // exits before reading stdin: status 1, no output
-	TFEmptyOK      ToolFault = "empty-exit-0"    // shellcheck only: exits 0 and prints nothing at all (not JSON)
+	TFCannotStart  ToolFault = "cannot-start"   // exec fails (ENOENT / EACCES / EAGAIN)
+	TFKilled       ToolFault = "killed"         // terminated by a signal, no output
+	TFKilledOutput ToolFault = "killed-partial" // terminated by a signal after writing part of its output
+	TFNonzeroEmpty ToolFault = "nonzero-empty"  // exits 1 without output
+	TFGarbage      ToolFault = "garbage"        // shellcheck only: prints something that is not JSON
+	TFEpipe        ToolFault = "epipe"          // exits before reading stdin: status 1, no output
+	TFEmptyOK      ToolFault = "empty-exit-0"   // shellcheck only: exits 0 and prints nothing at all (not JSON)
 )
 
 // ToolIssue is one issue a simulated tool prints.
